@@ -1308,6 +1308,38 @@ class Interp:
                     return TRUE
                 return FALSE if all(t is False for t in ts) else Unk(ast.unparse(e), ("prim", "bool"))
             return Unk(ast.unparse(e), ("prim", "bool"))
+        if fname in ("max", "min") and len(e.args) == 1:
+            inner = self._eval_iterable(e.args[0], st, fr)
+            if isinstance(inner, ListV) and inner.items:
+                keyl = next((kw.value for kw in e.keywords if kw.arg == "key"), None)
+                if len(inner.items) == 1:
+                    return inner.items[0]
+                vals = []
+                for it in inner.items:
+                    if isinstance(keyl, ast.Lambda) and len(keyl.args.args) == 1:
+                        saved = dict(st.env)
+                        st.env[keyl.args.args[0].arg] = it
+                        vals.append(self.eval(keyl.body, st, fr))
+                        st.env = saved
+                    else:
+                        vals.append(it)
+                if all(isinstance(v, Poly) for v in vals):
+                    best = 0
+                    decided = True
+                    for i in range(1, len(vals)):
+                        lo, hi = self.interval(vals[i] - vals[best], st)
+                        if fname == "max":
+                            if lo is not None and lo > 0:
+                                best = i
+                            elif not (hi is not None and hi <= 0):
+                                decided = False
+                        else:
+                            if hi is not None and hi < 0:
+                                best = i
+                            elif not (lo is not None and lo >= 0):
+                                decided = False
+                    if decided:
+                        return inner.items[best]
         if fname == "len" and len(e.args) == 1:
             v = self.eval(e.args[0], st, fr)
             if isinstance(v, ListV) and v.fresh:
